@@ -19,6 +19,16 @@ P2P = {
     'eddsa/resharing': {'DGRound3Message1'},
 }
 
+def chain_req(d, rnd):
+    src = strip_comments(open(os.path.join(d, 'rounds.go')).read())
+    emb = dict(re.findall(r'\n\s*(\w+) struct \{\s*\*(\w+)\s*\n?\s*\}', src))
+    parts, path, t = ['round != nil'], 'round', rnd
+    while t in emb:
+        path += '.' + emb[t]
+        parts.append(path + ' != nil')
+        t = emb[t]
+    return ' && '.join(parts)
+
 def strip_comments(s):
     return re.sub(r'//[^\n]*', '', s)
 
@@ -28,8 +38,9 @@ for pkg in PKGS:
     out = []
     msgs = strip_comments(open(os.path.join(d, 'messages.go')).read())
     # ---- constructors ----
-    for m in re.finditer(r'func (New(\w+))\(([^)]*)\)\s*tss\.ParsedMessage\s*\{(.*?)\n\}', msgs, re.S):
-        fn, typ, params, body = m.groups()
+    for m in re.finditer(r'func (New(\w+))\(([^)]*)\)\s*(tss\.ParsedMessage|\(tss\.ParsedMessage, error\))\s*\{(.*?)\n\}', msgs, re.S):
+        fn, typ, params, rtyp, body = m.groups()
+        two = 'error' in rtyp
         p2p = typ in P2P[pkg]
         names = [p.strip().split()[0] for p in re.split(r',', params) if p.strip()]
         out.append('//@ func %s' % fn)
@@ -41,13 +52,32 @@ for pkg in PKGS:
                 req.append('(forall k in 0..len(to) :: to[k] != nil)')
             else:
                 req.append('to != nil')
+        # every pointer argument is dereferenced for serialisation
+        typ_of, last = {}, None
+        for prm in reversed([q.strip() for q in params.split(',') if q.strip()]):
+            f = prm.split(None, 1)
+            if len(f) == 2:
+                last = f[1]
+            typ_of[f[0]] = last
+        for nme in names:
+            t = typ_of.get(nme, '')
+            if nme in ('from', 'to'):
+                continue
+            if t.startswith('*'):
+                req.append(nme + ' != nil')
         out.append('//@   requires ' + ' && '.join(req))
-        out.append('//@   skip pre nil')  # argument shapes are the caller's business; routing is what is claimed here
+        out.append('//@   skip pre nil')
+        out.append('//@   note assumed, not checked: the payload arguments satisfy the preconditions of their serialisers (non-nil numbers, well-formed points and proofs); only the routing is claimed')
         if p2p:
             out.append('//@   ensures [C08.secret-bearing-message-is-p2p-to-one-recipient] isMsg(result) && !mi(result).MessageRouting.IsBroadcast && len(mi(result).MessageRouting.To) == 1 && mi(result).MessageRouting.To[0] == to && mi(result).wire != nil && !mi(result).wire.IsBroadcast')
         else:
             out.append('//@   ensures [C08.public-message-is-broadcast] isMsg(result) && mi(result).MessageRouting.IsBroadcast && mi(result).wire != nil && mi(result).wire.IsBroadcast')
         out.append('//@   ensures [C08.sender-recorded] mi(result).MessageRouting.From == from && istype(mi(result).content, "*%s.%s")' % (pkg, typ))
+        if two:
+            for q in (-1, -2):
+                c = out[q]
+                k = c.index('] ') + 2
+                out[q] = c[:k] + 'result1 == nil ==> (' + c[k:].replace('(result)', '(result0)') + ')'
         out.append('')
     # ---- rounds ----
     for f in sorted(os.listdir(d)):
@@ -57,6 +87,8 @@ for pkg in PKGS:
         for m in re.finditer(r'func \(round \*(\w+)\) CanAccept\(msg tss\.ParsedMessage\) bool \{(.*?)\n\}', src, re.S):
             rnd, body = m.groups()
             types = re.findall(r'msg\.Content\(\)\.\(\*(\w+)\)', body)
+            if 'Committee()' in body:
+                continue  # acceptance depends on committee membership: hand-written
             out.append('//@ func (*%s).CanAccept' % rnd)
             out.append('//@   props C08 C06')
             out.append('//@   requires !isnil(msg)')
@@ -67,7 +99,9 @@ for pkg in PKGS:
                 for t in types:
                     b = 'false' if t in P2P[pkg] else 'true'
                     alts.append('(istype(msgcontent(msg), "*%s.%s") && msgbcast(msg) == %s)' % (pkg, t, b))
-                out.append('//@   ensures [C08.accepts-only-on-the-right-channel] result <==> (' + ' || '.join(alts) + ')')
+                acc = 'acc_%s_%s' % (pkg.replace('/', '_'), rnd)
+                out.insert(len(out) - 3, '//@ define %s(msg) = (%s)' % (acc, ' || '.join(alts)))
+                out.append('//@   ensures [C08.accepts-only-on-the-right-channel] result <==> %s(msg)' % acc)
             out.append('')
         for m in re.finditer(r'func \(round \*(\w+)\) NextRound\(\) tss\.Round \{(.*?)\n\}', src, re.S):
             rnd, body = m.groups()
@@ -75,12 +109,218 @@ for pkg in PKGS:
             out.append('//@   props C08 C06')
             nm = re.search(r'return &(\w+)\{round\}', body)
             if nm:
-                out.append('//@   requires round != nil && round.base != nil' if False else '//@   requires wfRoundChain(round)')
+                out.append('//@   requires ' + chain_req(d, rnd))
                 out.append('//@   modifies round.started')
                 out.append('//@   ensures istype(result, "*%s.%s") && fresh(cast(result, "*%s.%s")) && !round.started' % (pkg, nm.group(1), pkg, nm.group(1)))
             else:
                 out.append('//@   ensures isnil(result)')
             out.append('')
+    # ---- base methods (single ok[] array; resharing's old/new trackers are written by hand) ----
+    if 'resharing' not in pkg:
+        out += [
+            '//@ func (*base).Params',
+            '//@   props C06',
+            '//@   requires round != nil',
+            '//@   ensures result == round.Parameters',
+            '//@ func (*base).RoundNumber',
+            '//@   props C06 C08',
+            '//@   requires round != nil',
+            '//@   ensures result == round.number',
+            '',
+            '//@ func (*base).CanProceed',
+            '//@   props C08 C06',
+            '//@   requires round != nil',
+            '//@   ensures [C08.proceeds-iff-started-and-nobody-awaited] result <==> (round.started && (forall j in 0..len(round.ok) :: round.ok[j]))',
+            '//@   loop 0 invariant round.started && (forall k in 0..$iter :: round.ok[k])',
+            '',
+            '//@ func (*base).WaitingFor',
+            '//@   props C08 C06',
+            '//@   requires round != nil && round.Parameters != nil && round.Parameters.parties != nil',
+            '//@   requires [committee-sized-tracker] len(round.Parameters.parties.partyIDs) == len(round.ok)',
+            '//@   ensures [C08.waiting-for-lists-only-awaited-peers] forall m in 0..len(result) :: (exists j in 0..len(round.ok) :: (!round.ok[j] && result[m] == round.Parameters.parties.partyIDs[j]))',
+            '//@   ensures [C08.waiting-for-lists-every-awaited-peer] forall j in 0..len(round.ok) :: (!round.ok[j] ==> (exists m in 0..len(result) :: result[m] == round.Parameters.parties.partyIDs[j]))',
+            '//@   loop 0 invariant len(ids) <= $iter && cap(ids) == len(round.ok) && fresh(ids) && Ps == round.Parameters.parties.partyIDs',
+            '//@   loop 0 invariant forall m in 0..len(ids) :: (exists j in 0..$iter :: (!round.ok[j] && ids[m] == Ps[j]))',
+            '//@   loop 0 invariant forall j in 0..$iter :: (!round.ok[j] ==> (exists m in 0..len(ids) :: ids[m] == Ps[j]))',
+            '',
+            '//@ func (*base).resetOK',
+            '//@   props C08 C06',
+            '//@   requires round != nil',
+            '//@   modifies round.ok[*]',
+            '//@   ensures [C08.reset-clears-every-flag] forall j in 0..len(round.ok) :: !round.ok[j]',
+            '//@   loop 0 invariant forall k in 0..$iter :: !round.ok[k]',
+            '',
+            '//@ func (*base).WrapError',
+            '//@   props C05 C06',
+            '//@   requires round != nil && round.Parameters != nil',
+            '//@   ensures [C05.error-names-the-given-culprits] result != nil && fresh(result) && result.culprits == culprits && result.victim == round.Parameters.partyID && result.round == round.number && result.cause == err',
+            '',
+        ]
+    else:
+        out += [
+            '//@ func (*base).Params',
+            '//@   props C06',
+            '//@   requires round != nil && round.ReSharingParameters != nil',
+            '//@   ensures result == round.ReSharingParameters.Parameters',
+            '//@ func (*base).ReSharingParams',
+            '//@   props C06',
+            '//@   requires round != nil',
+            '//@   ensures result == round.ReSharingParameters',
+            '//@ func (*base).RoundNumber',
+            '//@   props C06 C08',
+            '//@   requires round != nil',
+            '//@   ensures result == round.number',
+            '',
+            '//@ func (*base).resetOK',
+            '//@   props C08 C06',
+            '//@   requires round != nil',
+            '//@   modifies round.oldOK[*], round.newOK[*]',
+            '//@   ensures [C08.reset-clears-every-flag] (forall j in 0..len(round.oldOK) :: !round.oldOK[j]) && (forall j in 0..len(round.newOK) :: !round.newOK[j])',
+            '//@   loop 0 invariant forall k in 0..$iter :: !round.oldOK[k]',
+            '//@   loop 1 invariant (forall k in 0..len(round.oldOK) :: !round.oldOK[k]) && (forall k in 0..$iter :: !round.newOK[k])',
+            '//@ func (*base).allOldOK',
+            '//@   props C08 C06',
+            '//@   requires round != nil',
+            '//@   modifies round.oldOK[*]',
+            '//@   ensures forall j in 0..len(round.oldOK) :: round.oldOK[j]',
+            '//@   loop 0 invariant forall k in 0..$iter :: round.oldOK[k]',
+            '//@ func (*base).allNewOK',
+            '//@   props C08 C06',
+            '//@   requires round != nil',
+            '//@   modifies round.newOK[*]',
+            '//@   ensures forall j in 0..len(round.newOK) :: round.newOK[j]',
+            '//@   loop 0 invariant forall k in 0..$iter :: round.newOK[k]',
+            '',
+            '//@ func (*base).WrapError',
+            '//@   props C05 C06',
+            '//@   requires round != nil && round.ReSharingParameters != nil && round.ReSharingParameters.Parameters != nil',
+            '//@   ensures [C05.error-names-the-given-culprits] result != nil && fresh(result) && result.culprits == culprits && result.victim == round.ReSharingParameters.Parameters.partyID && result.round == round.number && result.cause == err',
+            '',
+        ]
+        # resharing Update: optional committee guard, one scan, optional slot that only new members need
+        for f in sorted(os.listdir(d)):
+            if not f.endswith('.go') or f.endswith('_test.go') or f.startswith('zz_'):
+                continue
+            src = strip_comments(open(os.path.join(d, f)).read())
+            for m in re.finditer(r'func \(round \*(\w+)\) Update\(\) \(bool, \*tss\.Error\) \{(.*?)\n\}', src, re.S):
+                rnd, body = m.groups()
+                loops = re.findall(r'for j, \w+ := range round\.temp\.(\w+) \{', body)
+                if not loops:
+                    out.append('//@ func (*%s).Update' % rnd)
+                    out.append('//@   props C08 C06')
+                    out.append('//@   ensures [C08.final-round-waits-for-nobody] !result0 && result1 == nil')
+                    out.append('')
+                    continue
+                if len(loops) != 1 or 'UnmarshalE' in body:
+                    continue  # hand-written (several committee cases / public-key bookkeeping)
+                A = loops[0]
+                okarr = re.search(r'if round\.(oldOK|newOK)\[j\]', body).group(1)
+                gm = re.search(r'^\s*if !round\.ReSharingParam\w*(?:\(\))?\.Is(Old|New)Committee\(\) \{\s*return true, nil', body)
+                guard = None if not gm else ('rsOld' if gm.group(1) == 'Old' else 'rsNew') + '(round.ReSharingParameters)'
+                cm = re.search(r'if round\.ReSharingParams\(\)\.IsNewCommittee\(\) \{\s*\w+ := round\.temp\.(\w+)\[j\]', body)
+                cond_slot = cm.group(1) if cm else None
+                others = [a for a in re.findall(r'round\.temp\.(\w+)\[j\]', body) if a != A and a != cond_slot]
+                acc = 'acc_%s_%s' % (pkg.replace('/', '_'), rnd)
+                slot = lambda a: '(!isnil(round.temp.%s[K]) && %s(round.temp.%s[K]))' % (a, acc, a)
+                deliv = ' && '.join(slot(a) for a in [A] + others)
+                if cond_slot:
+                    deliv += ' && (rsNew(round.ReSharingParameters) ==> %s)' % slot(cond_slot)
+                D = lambda k: deliv.replace('K', k)
+                arrays = [A] + others + ([cond_slot] if cond_slot else [])
+                out.append('//@ func (*%s).Update' % rnd)
+                out.append('//@   props C08 C06')
+                out.append('//@   requires ' + chain_req(d, rnd) + ' && round.temp != nil && rsWF(round.ReSharingParameters)')
+                out.append('//@   requires [one-slot-per-committee-member] ' + ' && '.join('len(round.temp.%s) == len(round.%s)' % (a, okarr) for a in arrays))
+                out.append('//@   modifies round.%s[*]' % okarr)
+                exact = '(forall j in 0..len(round.%s) :: (round.%s[j] <==> (old(round.%s[j]) || (%s))))' % (okarr, okarr, okarr, D('j'))
+                allok = '(forall j in 0..len(round.%s) :: round.%s[j])' % (okarr, okarr)
+                if guard:
+                    out.append('//@   ensures [C08.not-a-receiver-in-this-round] !%s ==> (result0 && result1 == nil && (forall j in 0..len(round.%s) :: round.%s[j] == old(round.%s[j])))' % (guard, okarr, okarr, okarr))
+                    out.append('//@   ensures [C08.ok-marks-exactly-the-peers-whose-messages-are-delivered] %s ==> (result1 == nil && %s)' % (guard, exact))
+                    out.append('//@   ensures [C08.update-true-iff-nobody-awaited] %s ==> (result0 <==> %s)' % (guard, allok))
+                else:
+                    out.append('//@   ensures [C08.ok-marks-exactly-the-peers-whose-messages-are-delivered] result1 == nil && %s' % exact)
+                    out.append('//@   ensures [C08.update-true-iff-nobody-awaited] result0 <==> %s' % allok)
+                inv0 = (guard + ' && ') if guard else ''
+                out.append('//@   loop 0 invariant %sforall k in 0..$iter :: (round.%s[k] <==> (old(round.%s[k]) || (%s)))' % (inv0, okarr, okarr, D('k')))
+                out.append('//@   loop 0 invariant forall k in $iter..len(round.%s) :: (round.%s[k] == old(round.%s[k]))' % (okarr, okarr, okarr))
+                if re.search(r'\bret := true', body):
+                    out.append('//@   loop 0 invariant ret <==> (forall k in 0..$iter :: round.%s[k])' % okarr)
+                else:
+                    out.append('//@   loop 0 invariant forall k in 0..$iter :: round.%s[k]' % okarr)
+                out.append('')
+    # ---- Update: one scan over the per-sender slots; ok[j] is set exactly when all of j's slots are filled ----
+    for f in sorted(os.listdir(d)):
+        if not f.endswith('.go') or f.endswith('_test.go') or f.startswith('zz_') or 'resharing' in pkg:
+            continue
+        src = strip_comments(open(os.path.join(d, f)).read())
+        for m in re.finditer(r'func \(round \*(\w+)\) Update\(\) \(bool, \*tss\.Error\) \{(.*?)\n\}', src, re.S):
+            rnd, body = m.groups()
+            rm = re.search(r'for j, \w+ := range round\.temp\.(\w+) \{', body)
+            out.append('//@ func (*%s).Update' % rnd)
+            out.append('//@   props C08 C06')
+            if not rm:
+                out.append('//@   ensures [C08.final-round-waits-for-nobody] !result0 && result1 == nil')
+                out.append('')
+                continue
+            arrays = [rm.group(1)] + [a for a in re.findall(r'round\.temp\.(\w+)\[j\]', body) if a != rm.group(1)]
+            acc = 'acc_%s_%s' % (pkg.replace('/', '_'), rnd)
+            deliv = ' && '.join('(!isnil(round.temp.%s[K]) && %s(round.temp.%s[K]))' % (a, acc, a) for a in arrays)
+            D = lambda k: deliv.replace('K', k)
+            out.append('//@   requires ' + chain_req(d, rnd) + ' && round.temp != nil')
+            out.append('//@   requires [one-slot-per-committee-member] ' + ' && '.join('len(round.temp.%s) == len(round.ok)' % a for a in arrays))
+            out.append('//@   modifies round.ok[*]')
+            out.append('//@   ensures [C08.ok-marks-exactly-the-peers-whose-messages-are-delivered] result1 == nil && (forall j in 0..len(round.ok) :: (round.ok[j] <==> (old(round.ok[j]) || (%s))))' % D('j'))
+            out.append('//@   ensures [C08.update-true-iff-nobody-awaited] result0 <==> (forall j in 0..len(round.ok) :: round.ok[j])')
+            out.append('//@   loop 0 invariant forall k in 0..$iter :: (round.ok[k] <==> (old(round.ok[k]) || (%s)))' % D('k'))
+            out.append('//@   loop 0 invariant forall k in $iter..len(round.ok) :: (round.ok[k] == old(round.ok[k]))')
+            if re.search(r'\bret := true', body):
+                out.append('//@   loop 0 invariant ret <==> (forall k in 0..$iter :: round.ok[k])')
+            else:
+                out.append('//@   loop 0 invariant forall k in 0..$iter :: round.ok[k]')
+            out.append('')
+    # ---- LocalParty.ValidateMessage / StoreMessage: one slot per (content type, sender index) ----
+    lp = strip_comments(open(os.path.join(d, 'local_party.go')).read())
+    sm = re.search(r'func \(p \*LocalParty\) StoreMessage\(.*?\n\}', lp, re.S).group(0)
+    cases = re.findall(r'case \*(\w+):\s*p\.temp\.(\w+)\[fromPIdx\] = msg', sm)
+    vm = re.search(r'func \(p \*LocalParty\) ValidateMessage\(.*?\n\}', lp, re.S).group(0)
+    newtypes = set()
+    nm = re.search(r'case ([^:]*):\s*maxFromIdx = len\(p\.params\.NewParties', vm)
+    if nm:
+        newtypes = set(re.findall(r'\*(\w+)', nm.group(1)))
+    resh = 'resharing' in pkg
+    ids_old = 'p.params.Parameters.parties.partyIDs' if resh else 'p.params.parties.partyIDs'
+    ids_new = 'p.params.newParties.partyIDs'
+    wf = ('p != nil && p.BaseParty != nil && p.params != nil && wfParams(p.params.Parameters) && p.params.newParties != nil' if resh
+          else 'p != nil && p.BaseParty != nil && wfParams(p.params)')
+    T = lambda t: 'istype(msgcontent(msg), "*%s.%s")' % (pkg, t)
+    isnewtype = '(' + ' || '.join(T(t) for t in sorted(newtypes)) + ')' if newtypes else 'false'
+    if 'PartyCount()' in vm:
+        ids_old = None
+    bound0 = 'len(%s)' % ids_old if ids_old else 'p.params.partyCount'
+    bound = ('ite(%s, len(%s), len(%s))' % (isnewtype, ids_new, ids_old)) if resh else bound0
+    idx = 'msgfrom(msg).Index'
+    out += [
+        '//@ func (*LocalParty).ValidateMessage',
+        '//@   props C06 C08 C09',
+        '//@   requires ' + wf + ('' if ids_old else ' && 0 <= p.params.partyCount'),
+        '//@   requires [sender-id-wellformed] !isnil(msg) ==> (msgfrom(msg) != nil ==> msgfrom(msg).MessageWrapper_PartyID != nil)',
+        '//@   ensures result1 != nil ==> !result0',
+        '//@   ensures [C06.sender-index-fits-the-slot-arrays] result1 == nil ==> (result0 && !isnil(msg) && !isnil(msgcontent(msg)) && msgfrom(msg) != nil && msgvalid(msg) && 0 <= %s && %s < %s)' % (idx, idx, bound),
+        '',
+        '//@ func (*LocalParty).StoreMessage',
+        '//@   props C08 C06',
+        '//@   requires ' + wf + ('' if ids_old else ' && 0 <= p.params.partyCount'),
+        '//@   requires [sender-id-wellformed] !isnil(msg) ==> (msgfrom(msg) != nil ==> msgfrom(msg).MessageWrapper_PartyID != nil)',
+        '//@   requires [one-slot-per-committee-member] ' + ' && '.join('len(p.temp.%s) == %s' % (a, ('len(%s)' % ids_new) if t in newtypes else bound0) for t, a in cases),
+        '//@   requires [slot-arrays-are-separate] ' + ' && '.join('arr(p.temp.%s) != arr(p.temp.%s)' % (cases[i][1], cases[j][1]) for i in range(len(cases)) for j in range(i + 1, len(cases))),
+        '//@   modifies ' + ', '.join('p.temp.%s[*]' % a for t, a in cases),
+        '//@   ensures result1 != nil ==> !result0',
+        '//@   ensures [C08.stored-under-its-type-and-sender-index] (result1 == nil && result0) ==> (' + ' || '.join('(%s && p.temp.%s[%s] == msg)' % (T(t), a, idx) for t, a in cases) + ')',
+    ]
+    for t, a in cases:
+        out.append('//@   ensures [C08.only-the-senders-slot-of-that-type-changes] forall k in 0..len(p.temp.%s) :: (p.temp.%s[k] != old(p.temp.%s[k]) ==> (k == %s && %s && p.temp.%s[k] == msg))' % (a, a, a, idx, T(t), a))
+    out.append('')
     if out:
         path = os.path.join(d, 'zz_contracts_proto_verif.go')
         with open(path, 'w') as fh:
